@@ -5,9 +5,9 @@
 From Coq Require Import ZArith Bool List.
 From TV Require Import Model.Common Model.Leaf Model.FlexAlgBase Model.FlexAlg Model.EngineLift Model.BlockFlexEngine.
 From TV Require Import Model.FiltersBase Gen.FiltersGen Model.ItemFilters.
-From TV Require Import Model.GridAlgBase Model.GridAlg Model.TaffyEngine.
+From TV Require Import Model.GridAlgBase Model.GridAlg Model.GridAlgTotal Model.TaffyEngine.
 From TV Require Import Model.Engine Proofs.EngineMemo Proofs.EngineBlind Proofs.EngineAbs Proofs.EngineAbsKey Proofs.EngineLift.
-From TV Require Import Proofs.BlockAlgBlind Proofs.FlexAlgBlind Proofs.BlockFlexEngine Proofs.GridAlgIface Proofs.GridAlgBlind.
+From TV Require Import Proofs.BlockAlgBlind Proofs.FlexAlgBlind Proofs.BlockFlexEngine Proofs.GridAlgIface Proofs.GridAlgBlind Proofs.GridAlgTotal.
 Import ListNotations.
 Close Scope Z_scope.
 
@@ -43,7 +43,7 @@ Section Taffy.
   Proof. reflexivity. Qed.
 
   Theorem grid_alg_t_hidden_blind : HiddenBlind (TStyle T) (FIn T) Out (FLay T) t_is_none grid_alg_t.
-  Proof. unfold grid_alg_t. eapply HiddenBlind_comap; [apply to_gstyle_is_none|apply grid_alg_hidden_blind]. Qed.
+  Proof. unfold grid_alg_t. eapply HiddenBlind_comap; [apply to_gstyle_is_none|apply grid_alg_total_hidden_blind]. Qed.
 
   Theorem block_alg_t_hidden_blind pre abs_child :
     HiddenBlind (TStyle T) (FIn T) Out (FLay T) t_is_none (block_alg_t pre abs_child).
@@ -102,7 +102,7 @@ Section Taffy.
   Proof.
     unfold grid_alg_t, style_comap.
     apply (AbsBlindK_comap (GStyle T) (TStyle T) (FIn T) Out (FLay T) LK to_gstyle g_visible_absolute t_visible_absolute g_lines t_lines);
-      [intros s; reflexivity|intros s; reflexivity|apply grid_alg_abs_blind_keyed].
+      [intros s; reflexivity|intros s; reflexivity|apply grid_alg_total_abs_blind_keyed].
   Qed.
 
   Theorem block_alg_t_abs_blind_keyed pre abs_child : BlockAlg.AbsChildLocal abs_child ->
